@@ -2,60 +2,45 @@
    Statements only.  Model: Model/X2jWrap.v (re-implemented walkers of x2j-wrapper,
    tied to /repo by the correspondence check; thin wrapper bodies, the place of
    Gen/Wrappers_gen.v).  Specification and the inventory of every exported function:
-   Spec/Wrappers.v.  Proofs: Proofs/C20P.v (walkers), Proofs/C20W.v (thin wrappers). *)
+   Spec/Wrappers.v.  Proofs: Proofs/C20P.v (walkers), Proofs/C20W.v (thin wrappers).
+   The four defects of the pinned tree (PathsForKey crumb mutation, MapToJson dropping
+   safeEncoding, CastNanInf without effect, k[:1] of an empty key) were refuted here on the
+   faithful model, repaired in /repo (5ff47ea, 6251df7, a59bf47, 3b36840); the model follows the
+   repaired code and the full statements below replace the refutations. *)
 From Coq Require Import Permutation.
 From Mxj Require Import Model.X2jWrap Spec.PathSem Spec.KeySearch Spec.Wrappers
-  Proofs.C07P Proofs.C20P Proofs.C20S Proofs.C20W.
+  Proofs.C07P Proofs.C08P Proofs.C20P Proofs.C20W.
 
 (* ================= 1. x2j-wrapper.PathsForKey / PathForKeyShortest vs Map.PathsForKey ================= *)
-
-(* FALSE of the code as written: hasKeyPath assigns to its crumb parameter when the key is found and
-   builds the children's crumbs from the mutated variable; a key at two depths on one branch yields
-   a path that does not exist (a.k.k.k instead of a.k.k) and that resolves to nothing *)
-Theorem C20_paths_refuted :
-  exists m k,
-    xw_paths_for_key m k = [s "a.k"; s "a.k.k.k"] /\
-    paths_for_key m k = [s "a.k"; s "a.k.k"] /\
-    ~ Permutation (xw_paths_for_key m k) (paths_for_key m k) /\
-    path_existsb [s "a"; s "k"; s "k"; s "k"] m = false /\
-    xw_values_from m (s "a.k.k.k") true = Ok [].
-Proof. exact xw_paths_refuted. Qed.
-Print Assumptions C20_paths_refuted.
-
-(* TRUE whenever the occurrences of the key are not nested (no map that has the key has it again
-   somewhere below): then the two walkers produce the same crumbs in the same order, for every Map.
-   (The condition is the narrowest the oracle could find: in 11,000 generated cases with a nested key the
-   two path sets differed every time but once - the empty key "" at the top level, whose crumb is "".) *)
-Theorem C20_paths_agree : forall m k,
-  key_not_nested k m = true -> xw_paths_for_key m k = paths_for_key m k.
-Proof. exact xw_paths_nonnested. Qed.
+(* every Map, every key: the same crumbs in the same order (a fortiori the same set) *)
+Theorem C20_paths_agree : forall m k, xw_paths_for_key m k = paths_for_key m k.
+Proof. exact xw_paths_core. Qed.
 Print Assumptions C20_paths_agree.
 
-Corollary C20_paths_agree_perm : forall m k,
-  key_not_nested k m = true -> Permutation (xw_paths_for_key m k) (paths_for_key m k).
-Proof. intros m k H. rewrite (xw_paths_nonnested m k H). apply Permutation_refl. Qed.
+Corollary C20_paths_agree_perm : forall m k, Permutation (xw_paths_for_key m k) (paths_for_key m k).
+Proof. intros m k. rewrite (xw_paths_core m k). apply Permutation_refl. Qed.
 Print Assumptions C20_paths_agree_perm.
 
-(* the loop of PathForKeyShortest is Spec/KeySearch.v [shortest] (C08: a member with the fewest segments) *)
+(* the loop of PathForKeyShortest is Spec/KeySearch.v [shortest] ... *)
 Theorem C20_shortest_loop : forall m k, xw_path_for_key_shortest m k = shortest (xw_paths_for_key m k).
 Proof. exact xw_shortest_spec. Qed.
 Print Assumptions C20_shortest_loop.
 
-Theorem C20_shortest_agree : forall m k,
-  key_not_nested k m = true -> xw_path_for_key_shortest m k = shortest (paths_for_key m k).
-Proof. exact xw_shortest_nonnested. Qed.
+Theorem C20_shortest_agree : forall m k, xw_path_for_key_shortest m k = shortest (paths_for_key m k).
+Proof. exact xw_shortest_core. Qed.
 Print Assumptions C20_shortest_agree.
-(* ... and WITHOUT that side condition PathForKeyShortest is still right: for every Map without empty
-   keys and every non-empty key, the wrapper's answer is a member of Map.PathsForKey with the fewest
-   segments (what C08 proves of Map.PathForKeyShortest), "" when the key does not occur.  The crumb
-   mutation only lengthens the crumbs of nested occurrences; the outermost ones stay correct. *)
-Theorem C20_shortest_valid : forall k m,
-  k <> [] -> no_empty_key m = true ->
+
+(* ... hence "" when the key does not occur, else a member of Map.PathsForKey with the fewest segments *)
+Theorem C20_shortest_valid : forall m k,
   (paths_for_key m k = [] -> xw_path_for_key_shortest m k = []) /\
   (paths_for_key m k <> [] ->
    In (xw_path_for_key_shortest m k) (paths_for_key m k) /\
    forall p, In p (paths_for_key m k) -> path_len (xw_path_for_key_shortest m k) <= path_len p).
-Proof. intros k m Hk Hn. exact (xw_shortest_valid k Hk m Hn). Qed.
+Proof.
+  intros m k. rewrite xw_shortest_core. split.
+  - intros E. rewrite E. reflexivity.
+  - intros H. exact (shortest_minimal (paths_for_key m k) H).
+Qed.
 Print Assumptions C20_shortest_valid.
 
 (* ================= 2. x2j-wrapper.ValuesForKey vs Map.ValuesForKey ================= *)
@@ -72,30 +57,25 @@ Proof. exact xw_has_key_star_differs. Qed.
 Print Assumptions C20_values_for_key_star_differs.
 
 (* ================= 3. x2j-wrapper.ValuesFromKeyPath ================= *)
-(* the walker, every key list, every Map, both getAttrs values: either it panics - and then some map
-   of the tree has the empty key - or it returns exactly the values the path denotes with attribute
-   entries left out at "*" steps unless requested; it never reports an error *)
-Theorem C20_values_from_cases : forall ga ks m,
-  match xw_vfkp ks ga m with
-  | Ok vs => vs = eval_filtered ga ks m
-  | Panic => no_empty_key m = false
-  | Err _ => False
-  end.
-Proof. exact xw_vfkp_cases. Qed.
-Print Assumptions C20_values_from_cases.
+(* the walker, every key list, every Map (empty keys included), both getAttrs values: exactly the values
+   the path denotes with attribute entries left out at "*" steps unless requested; it cannot panic or fail
+   (the model function is total) *)
+Theorem C20_values_from_walker_filtered : forall ga ks m, xw_vfkp ks ga m = eval_filtered ga ks m.
+Proof. exact xw_vfkp_filtered. Qed.
+Print Assumptions C20_values_from_walker_filtered.
 
 Theorem C20_values_from_filtered : forall m path ga,
-  no_empty_key m = true -> xw_values_from m path ga = Ok (eval_filtered ga (split1 dot path) m).
+  xw_values_from m path ga = eval_filtered ga (split1 dot path) m.
 Proof. exact xw_values_from_filtered. Qed.
 Print Assumptions C20_values_from_filtered.
 
-(* FALSE without the side condition: an empty key met at a "*" step makes k[:1] panic, where
-   Map.ValuesForPath returns the value *)
-Theorem C20_values_from_empty_key_refuted :
-  exists m ga, xw_vfkp [star] ga m = Panic /\ eval [star] m = [VInt 1] /\
-               values_for_path (fun _ => None) (s ":") m star [] = Ok [VInt 1].
-Proof. exact xw_vfkp_empty_key_refuted. Qed.
-Print Assumptions C20_values_from_empty_key_refuted.
+(* the former panic (k[:1] of an empty key met at a "*" step): now the entry is returned, as by the core *)
+Theorem C20_values_from_empty_key :
+  xw_vfkp [star] true (VMap [([], VInt 1)]) = [VInt 1] /\
+  xw_vfkp [star] false (VMap [([], VInt 1); (s "-a", VInt 2)]) = [VInt 1] /\
+  values_for_path (fun _ => None) (s ":") (VMap [([], VInt 1)]) star [] = Ok [VInt 1].
+Proof. exact xw_vfkp_empty_key. Qed.
+Print Assumptions C20_values_from_empty_key.
 
 (* the filtered semantics is the core semantics when attributes are requested or no "*" occurs *)
 Theorem C20_filtered_getattrs : forall ks v, eval_filtered true ks v = eval ks v.
@@ -108,17 +88,16 @@ Print Assumptions C20_filtered_no_star.
 
 (* ... and the walker then IS the core walker valuesForKeyPath (Proofs/C07P.v vfkp_eval) *)
 Theorem C20_values_from_walker : forall ga ks m,
-  no_empty_key m = true -> ga = true \/ no_star ks = true ->
-  xw_vfkp ks ga m = Ok (vfkp ks [] m).
+  ga = true \/ no_star ks = true -> xw_vfkp ks ga m = vfkp ks [] m.
 Proof. exact xw_vfkp_core. Qed.
 Print Assumptions C20_values_from_walker.
 
-(* from the path string: ValuesFromKeyPath(m, path, getAttrs) = Map(m).ValuesForPath(path) for every
-   path without '[' whose last segment is not empty *)
+(* from the path string: ValuesFromKeyPath(m, path, getAttrs) = Map(m).ValuesForPath(path) for every Map and
+   every path without '[' whose last segment is not empty *)
 Theorem C20_values_from_core : forall pf sep m path ga,
-  mem_ascii lbr path = false -> no_trailing_dot path = true -> no_empty_key m = true ->
+  mem_ascii lbr path = false -> no_trailing_dot path = true ->
   ga = true \/ no_star (split1 dot path) = true ->
-  xw_values_from m path ga = values_for_path pf sep m path [].
+  Ok (xw_values_from m path ga) = values_for_path pf sep m path [].
 Proof. exact xw_values_from_core. Qed.
 Print Assumptions C20_values_from_core.
 
@@ -130,21 +109,16 @@ Print Assumptions C20_filter_observable.
 
 Theorem C20_trailing_dot_differs :
   exists m path, no_trailing_dot path = false /\
-    xw_values_from m path true = Ok [] /\
+    xw_values_from m path true = [] /\
     values_for_path (fun _ => None) (s ":") m path [] = Ok [VMap [(s "b", VInt 1)]].
 Proof. exact xw_values_from_trailing_dot_differs. Qed.
 Print Assumptions C20_trailing_dot_differs.
 
 (* ================= 4. x2j-wrapper.ValuesAtKeyPath ================= *)
 Theorem C20_values_at : forall m path ga,
-  no_empty_key m = true -> xw_values_at m path ga = Ok (values_at_spec ga (split1 dot path) m).
-Proof. exact xw_values_at_ok. Qed.
+  xw_values_at m path ga = values_at_spec ga (split1 dot path) m.
+Proof. exact xw_values_at_spec. Qed.
 Print Assumptions C20_values_at.
-
-Theorem C20_values_at_partial : forall m path ga vs,
-  xw_values_at m path ga = Ok vs -> vs = values_at_spec ga (split1 dot path) m.
-Proof. exact xw_values_at_partial. Qed.
-Print Assumptions C20_values_at_partial.
 
 (* its documented relation to ValuesFromKeyPath: when "x.y.z" has a value, ValuesAtKeyPath(m, "x.y.z")
    is ValuesFromKeyPath(m, "x.y") and one of those values is a map with key z *)
@@ -168,17 +142,11 @@ Theorem C20_j2x_wrappers : forall pf sep ap tk dotn NewMapJson NewMapJsonReader 
 Proof. exact j2x_agrees_holds. Qed.
 Print Assumptions C20_j2x_wrappers.
 
-(* j2x.MapToJson is in that table with safeEncoding = false only: the argument is dropped *)
-Theorem C20_MapToJson_drops_flag : forall (MapJson : value -> bool -> res str) m f,
-  j2x_MapToJson MapJson m f = MapJson m false.
-Proof. exact j2x_MapToJson_drops_flag. Qed.
-Print Assumptions C20_MapToJson_drops_flag.
-
-Theorem C20_MapToJson_refuted : forall (MapJson : value -> bool -> res str) m,
-  MapJson m true <> MapJson m false ->
-  j2x_MapToJson MapJson m true <> c_MapToJson MapJson m true.
-Proof. exact j2x_MapToJson_differs. Qed.
-Print Assumptions C20_MapToJson_refuted.
+(* j2x.MapToJson (pinned tree: dropped safeEncoding; repaired 6251df7) - the conjunct of the table, on its own *)
+Theorem C20_MapToJson : forall (MapJson : value -> bool -> res str) m f,
+  j2x_MapToJson MapJson m f = c_MapToJson MapJson m f.
+Proof. reflexivity. Qed.
+Print Assumptions C20_MapToJson.
 
 Theorem C20_x2j_wrappers : forall pf sep ap tk dotn NewMapXml NewMapXmlReaderRaw MapJson MapXml,
   x2j_agrees pf sep ap tk dotn NewMapXml NewMapXmlReaderRaw MapJson MapXml.
@@ -190,34 +158,28 @@ Theorem C20_x2jw_conversions : forall NewMapXml NewMapXmlReader MapJson MapJsonI
 Proof. exact x2jw_conv_agrees_holds. Qed.
 Print Assumptions C20_x2jw_conversions.
 
-(* the *Tag functions of x2j-wrapper: decode ; the wrapper's own walker = decode ; core walker / path
-   semantics, under the walker's side condition on the decoded document *)
+(* the *Tag functions of x2j-wrapper: decode ; the wrapper's own walker = decode ; core walker / path semantics *)
 Theorem C20_PathsForTag : forall (NewMapXml : str -> bool -> res value) doc key,
-  (forall m, NewMapXml doc false = Ok m -> key_not_nested key m = true) ->
   xw_PathsForTag NewMapXml doc key = c_PathsForTag NewMapXml doc key.
 Proof. exact xw_PathsForTag_core. Qed.
 Print Assumptions C20_PathsForTag.
 
 Theorem C20_PathForTagShortest : forall (NewMapXml : str -> bool -> res value) doc key,
-  (forall m, NewMapXml doc false = Ok m -> key_not_nested key m = true) ->
   xw_PathForTagShortest NewMapXml doc key = c_PathForTagShortest NewMapXml doc key.
 Proof. exact xw_PathForTagShortest_core. Qed.
 Print Assumptions C20_PathForTagShortest.
 
 Theorem C20_ValuesFromTagPath : forall (NewMapXml : str -> bool -> res value) doc path ga,
-  (forall m, NewMapXml doc false = Ok m -> no_empty_key m = true) ->
   xw_ValuesFromTagPath NewMapXml doc path ga = c_ValuesFromTagPath NewMapXml doc path ga.
 Proof. exact xw_ValuesFromTagPath_spec. Qed.
 Print Assumptions C20_ValuesFromTagPath.
 
 Theorem C20_ReaderValuesFromTagPath : forall (NewMapXmlReader : str -> bool -> res value * str) rd path ga,
-  (forall m, fst (NewMapXmlReader rd false) = Ok m -> no_empty_key m = true) ->
   xw_ReaderValuesFromTagPath NewMapXmlReader rd path ga = c_ReaderValuesFromTagPath NewMapXmlReader rd path ga.
 Proof. exact xw_ReaderValuesFromTagPath_spec. Qed.
 Print Assumptions C20_ReaderValuesFromTagPath.
 
 Theorem C20_ValuesAtTagPath : forall (NewMapXml : str -> bool -> res value) doc path ga,
-  (forall m, NewMapXml doc false = Ok m -> no_empty_key m = true) ->
   xw_ValuesAtTagPath NewMapXml doc path ga = c_ValuesAtTagPath NewMapXml doc path ga.
 Proof. exact xw_ValuesAtTagPath_spec. Qed.
 Print Assumptions C20_ValuesAtTagPath.
@@ -230,15 +192,11 @@ Theorem C20_ValuesForTag : forall (NewMapXml : str -> bool -> res value) doc tag
 Proof. exact xw_ValuesForTag_core. Qed.
 Print Assumptions C20_ValuesForTag.
 
-(* x2j-wrapper.CastNanInf writes a variable the decoder never reads *)
-Theorem C20_CastNanInf_noop : forall b st, decoder_castNanInf (xw_CastNanInf b st) = decoder_castNanInf st.
-Proof. exact xw_CastNanInf_noop. Qed.
-Print Assumptions C20_CastNanInf_noop.
-
-Theorem C20_CastNanInf_refuted :
-  exists b st, decoder_castNanInf (xw_CastNanInf b st) <> decoder_castNanInf (c_CastNanInf b st).
-Proof. exact xw_CastNanInf_refuted. Qed.
-Print Assumptions C20_CastNanInf_refuted.
+(* x2j-wrapper.CastNanInf (pinned tree: a private variable nothing read; repaired a59bf47) is mxj.CastNanInf *)
+Theorem C20_CastNanInf : forall b st,
+  xw_CastNanInf b st = c_CastNanInf b st /\ decoder_castNanInf (xw_CastNanInf b st) = b.
+Proof. intros b st. split; [exact (xw_CastNanInf_core b st)|exact (xw_CastNanInf_sets b st)]. Qed.
+Print Assumptions C20_CastNanInf.
 
 (* ================= non-vacuity ================= *)
 Local Open Scope string_scope.
@@ -250,16 +208,18 @@ Definition ex20 : value :=
                           VMap [(s"-seq", VStr (s"2")); (s"author", VStr (s"B")); (s"title", VStr (s"T2"))]])]);
                        (s"shelf", VMap [(s"title", VStr (s"S"))])])].
 
-(* 1: "title" occurs at two places but not nested: both walkers agree, on two paths *)
+(* the former counterexample of PathsForKey: the key at two depths on one branch *)
+Definition c20_nested : value := VMap [(s"a", VMap [(s"k", VMap [(s"k", VInt 1)])])].
+
+(* 1: "title" occurs at two places; "k" nested below itself: both walkers agree, a.k.k not a.k.k.k *)
 Example C20_ex_paths :
-  key_not_nested (s"title") ex20 = true /\
   xw_paths_for_key ex20 (s"title") = [s"doc.books.book.title"; s"doc.shelf.title"] /\
   paths_for_key ex20 (s"title") = [s"doc.books.book.title"; s"doc.shelf.title"] /\
   xw_path_for_key_shortest ex20 (s"title") = s"doc.shelf.title" /\
-  key_not_nested (s"k") c20_nested = false /\
-  (* nested occurrences: the path set is wrong, the shortest path is not *)
-  no_empty_key c20_nested = true /\ xw_path_for_key_shortest c20_nested (s"k") = s"a.k" /\
-  shortest (paths_for_key c20_nested (s"k")) = s"a.k".
+  xw_paths_for_key c20_nested (s"k") = [s"a.k"; s"a.k.k"] /\
+  path_existsb [s"a"; s"k"; s"k"] c20_nested = true /\
+  xw_path_for_key_shortest c20_nested (s"k") = s"a.k" /\
+  xw_path_for_key_shortest c20_nested (s"zz") = [].
 Proof. vm_compute. repeat split. Qed.
 
 (* 2: a stored list is one value for the wrapper, its members for the core *)
@@ -271,21 +231,20 @@ Proof. split; [discriminate|]. split; [vm_compute; discriminate|]. vm_compute. s
 
 (* 3: wildcard with and without attributes; plain path; every hypothesis of C20_values_from_core met *)
 Example C20_ex_values_from :
-  no_empty_key ex20 = true /\
   mem_ascii lbr (s"doc.books.book.*") = false /\ no_trailing_dot (s"doc.books.book.*") = true /\
-  xw_values_from ex20 (s"doc.books.book.*") false = Ok [VStr (s"A"); VStr (s"T1"); VStr (s"B"); VStr (s"T2")] /\
+  xw_values_from ex20 (s"doc.books.book.*") false = [VStr (s"A"); VStr (s"T1"); VStr (s"B"); VStr (s"T2")] /\
   xw_values_from ex20 (s"doc.books.book.*") true =
-    Ok [VStr (s"1"); VStr (s"A"); VStr (s"T1"); VStr (s"2"); VStr (s"B"); VStr (s"T2")] /\
-  values_for_path (fun _ => None) (s":") ex20 (s"doc.books.book.*") [] = xw_values_from ex20 (s"doc.books.book.*") true /\
+    [VStr (s"1"); VStr (s"A"); VStr (s"T1"); VStr (s"2"); VStr (s"B"); VStr (s"T2")] /\
+  values_for_path (fun _ => None) (s":") ex20 (s"doc.books.book.*") [] = Ok (xw_values_from ex20 (s"doc.books.book.*") true) /\
   no_star (split1 dot (s"doc.books.book.author")) = true /\
-  xw_values_from ex20 (s"doc.books.book.author") false = Ok [VStr (s"A"); VStr (s"B")].
+  xw_values_from ex20 (s"doc.books.book.author") false = [VStr (s"A"); VStr (s"B")].
 Proof. vm_compute. repeat split. Qed.
 
 (* 4: ValuesAtKeyPath returns the two book maps for "doc.books.book.author", nothing for an absent last key *)
 Example C20_ex_values_at :
-  (exists b1 b2, xw_values_at ex20 (s"doc.books.book.author") false = Ok [b1; b2] /\
-                 xw_vfkp [s"doc"; s"books"; s"book"] false ex20 = Ok [b1; b2]) /\
-  xw_values_at ex20 (s"doc.books.book.zz") false = Ok [] /\
+  (exists b1 b2, xw_values_at ex20 (s"doc.books.book.author") false = [b1; b2] /\
+                 xw_vfkp [s"doc"; s"books"; s"book"] false ex20 = [b1; b2]) /\
+  xw_values_at ex20 (s"doc.books.book.zz") false = [] /\
   [s"doc"; s"books"; s"book"] <> [] /\ str_eqb (s"author") star = false /\
   eval_filtered false ([s"doc"; s"books"; s"book"] ++ [s"author"]) ex20 <> [].
 Proof.
@@ -293,8 +252,8 @@ Proof.
   split; [vm_compute; reflexivity|]. split; [discriminate|]. split; [reflexivity|]. vm_compute. discriminate.
 Qed.
 
-(* 5: a codec that tells the two encodings apart makes the MapToJson hypothesis true *)
+(* 5: with a codec that tells the two encodings apart, MapToJson(m, true) is the safe encoding *)
 Example C20_ex_MapToJson :
   let MapJson := fun (_ : value) (safe : bool) => Ok (if safe then s"escaped" else s"raw") in
-  MapJson ex20 true <> MapJson ex20 false /\ j2x_MapToJson MapJson ex20 true = Ok (s"raw").
+  MapJson ex20 true <> MapJson ex20 false /\ j2x_MapToJson MapJson ex20 true = Ok (s"escaped").
 Proof. cbn. split; [discriminate|reflexivity]. Qed.
